@@ -19,6 +19,15 @@ QUERY_TIMEOUT_MS = 60000
 INCREMENTAL_TIMEOUT_MS = 15000
 
 
+import re as _re
+
+# exception texts that can only come from the proxies / library models themselves
+MODEL_LIMIT_RE = _re.compile(
+    r"EngineUnsupported|the library model \w+ does not cover|"
+    r"(AttributeError|TypeError|NotImplementedError|NameError)[^\n]*\b(NPModel|XRModel|KNP|MArr|NArr|BArr|MDataset|DataArrayModel|KArr|OutArr|ElemWise|NVal|"
+    r"SymInt|SymFloat|SymVal|SymBool|RangeValues|DemonicSet|DemonicFrozenSet|TrackedDict|PrefixSum)\b")
+
+
 class EngineUnsupported(Exception):
     """The engine met an operation it cannot model soundly (would concretise a symbol)."""
 
@@ -145,6 +154,10 @@ class Ctx:
         if isinstance(goal, SymBool):
             goal = goal.e
         if isinstance(goal, bool):
+            if not goal and detail is not None and MODEL_LIMIT_RE.search(str(detail)):
+                # the exception behind this obligation was raised BY the library models (an operation they do not
+                # cover), not by the code under proof: undecided, never a refutation
+                raise EngineUnsupported(f"model limit behind obligation {name}: {str(detail)[:300]}")
             ob = Oblig(name, "proved" if goal else "failed", None, list(self.trace), 0.0, detail)
             if not goal:
                 ob.model = self._any_model()
